@@ -283,6 +283,14 @@ var umValues = []umVal{
 	{"P", func() any { return P{A: 2, B: "c"} }},
 	{"listChan", func() any { return []any{make(chan int)} }},
 	{"nan", func() any { return math.NaN() }},
+	// appended later (indexes above are referred to by corpus cases)
+	{"fmaxf32", func() any { return float64(math.MaxFloat32) }},
+	{"f-maxf32", func() any { return -float64(math.MaxFloat32) }},
+	{"f0.1", func() any { return 0.1 }},
+	{"f2^53+2", func() any { return 9007199254740994.0 }},
+	{"f2^63", func() any { return 0x1p63 }},
+	{"f-2^63", func() any { return -0x1p63 }},
+	{"f1e-45", func() any { return 1e-45 }},
 }
 
 // field names a document may carry, and the keys (keyPool indexes) a definition / custom list may carry
@@ -368,9 +376,9 @@ func genUDoc(r *Rng, depth int) *UDoc {
 // pickValueFor: mostly values that could bind to a key of that name, sometimes anything.
 func pickValueFor(r *Rng, name string) int {
 	hints := map[string][]string{
-		"s": {"str", "empty", "f3", "i5", "MyStr", "redacted"}, "n": {"f3", "i5", "str", "int(4)", "f3.5"},
+		"s": {"str", "empty", "f3", "i5", "MyStr", "redacted"}, "n": {"f3", "i5", "str", "int(4)", "f3.5", "f2^53+2", "f2^63", "f-2^63"},
 		"i8": {"f3", "f300", "i5", "int8(7)", "f3.5"}, "u8": {"f3", "f-1", "i-5", "f300"},
-		"f32": {"f3.5", "f1e20", "i5", "i2^40", "float32(1.5)"}, "f64": {"f3.5", "i5", "str"},
+		"f32": {"f3.5", "f1e20", "i5", "i2^40", "float32(1.5)", "fmaxf32", "f-maxf32", "f0.1", "f1e-45"}, "f64": {"f3.5", "i5", "str", "f0.1", "f2^53+2"},
 		"b": {"true", "str"}, "any": {"str", "nil", "f3", "mapP"}, "myint": {"f3", "MyInt(9)", "int(4)", "i5"},
 		"mystr": {"str", "MyStr"}, "p": {"mapP", "mapBadP", "P", "ptrP", "listInts"}, "ints": {"listInts", "listStr", "mapP", "listChan"},
 		"msi": {"mapSI", "mapP"}, "arr": {"arr2", "arr3", "listInts"}, "arr3": {"arr2", "arr3"},
